@@ -255,7 +255,15 @@ def judge(h, cases, impl_obs, model_obs, known):
     matchers = getattr(h, "KNOWN", {})
     for i, c in enumerate(cases):
         obs = impl_obs[i]
-        clause = h.oracle(c, obs)
+        try:
+            clause = h.oracle(c, obs)
+        except Exception as ex:
+            # the oracle could not read the observation.  When the implementation raised where the property's reading
+            # expects a value, that is the failure to report; anything else is a defect of the harness (exit 2).
+            if isinstance(obs, Err):
+                clause = "the implementation raised %s where the property expects a result" % obs.name
+            else:
+                raise
         if clause:
             hit = None
             for k in known:
@@ -492,4 +500,14 @@ def do_replay(h, pid, path):
 
 if __name__ == "__main__":
     from tools import framework as _fw   # one module identity for Err/Case across harness imports
-    sys.exit(_fw.main(sys.argv))
+    try:
+        rc = _fw.main(sys.argv)
+    except SystemExit:
+        raise
+    except BaseException:
+        # a defect of the machinery itself (harness, framework, environment) is never a verdict on the property
+        import traceback
+        traceback.print_exc()
+        print("INFRASTRUCTURE ERROR: the check itself failed; no verdict (exit 2)")
+        rc = 2
+    sys.exit(rc)
